@@ -43,7 +43,7 @@ def install():
                     cmds = G.parse(res[0].as_path().d)
                     if cmds is not None:
                         polys = PG.flatten(cmds)
-                        if all(abs(PG.polygon_area(p)) <= 1e-12 for p in polys):
+                        if all(_collinear(p) for p in polys):
                             LAST["stroke_junk"] += 1
                 except Exception:
                     pass
@@ -52,6 +52,19 @@ def install():
         return _stroke
 
     attach.wrap_method(SVG, "_stroke", make_stroke)
+
+
+def _collinear(poly, tol=1e-9):
+    """All points of the polyline on one straight line (it can enclose no area under any rule)."""
+    if len(poly) < 3:
+        return True
+    x0, y0 = poly[0]
+    far = max(poly, key=lambda q: (q[0] - x0) ** 2 + (q[1] - y0) ** 2)
+    dx, dy = far[0] - x0, far[1] - y0
+    L = (dx * dx + dy * dy) ** 0.5
+    if L == 0:
+        return True
+    return all(abs((q[0] - x0) * dy - (q[1] - y0) * dx) / L <= tol * (1 + L) for q in poly)
 
 
 def reset():
